@@ -9,6 +9,7 @@ func init() {
 		// bound 3 / 4: no internal crash (send on a closed channel), callers return when nothing stops the pool
 		poolCheck(c, "C04", []string{"C04:"})
 		c04MissingBlobs(c)
+		c04SharedDependencyOrders(c)
 		// the schedule dimension of a failing restore (real Registry.LoadOutputs under the controlled scheduler): it returns
 		loadQuiescence(c, "C04", "load-outputs-never-returns")
 		// (c) every failure mode of a real command must end the build: exit code, missing output and
